@@ -18,6 +18,8 @@ KurkaEnc == << <<"conv", 9, 2, 4, 0>>, <<"conv", 5, 2, 2, 0>>, <<"conv", 5, 1, 2
 KurkaDec == << <<"tconv", 5, 1, 2, 0>>, <<"tconv", 5, 1, 2, 0>>, <<"tconv", 5, 1, 2, 0>>, <<"tconv", 5, 2, 2, 1>>, <<"tconv", 9, 2, 4, 1>> >>
 \* an image size is admissible for a pair when the decoder restores it
 Admissible(enc, dec, h) == NetOut(NetOut(h, enc), dec) = h
+\* filter count for a bandwidth ratio rn/rd with `layers` stride-2 layers: latent elements / input elements = rn/rd (twice that for complex symbols)
+NumFiltersOK(c, layers, rn, rd, channels, cplx) == c * rd = channels * (4 ^ layers) * rn * (IF cplx THEN 2 ELSE 1)
 \* reachability in a directed graph given as a set of edges <<from, to>>
 RECURSIVE Reach(_, _)
 Reach(front, E) == LET nxt == front \cup { e[2] : e \in { f \in E : f[1] \in front } } IN IF nxt = front THEN front ELSE Reach(nxt, E)
